@@ -356,6 +356,8 @@ class Translator:
         if len(pynames) != len(pspecs):
             raise TranslateError('%s: expected %d params in spec, source has %d (%s)' %
                                  (qual, len(pspecs), len(pynames), pynames))
+        if (opts.get('segment') or {}).get('drop_params'):
+            allp = list(free)
         coq_params = []
         # function-valued closure variables (black-box oracles): opts['oracles'] = [(name, n_scalar_args, n_scalar_results)]
         # become leading parameters of type T -> .. -> T * .. * T; calls to them are emitted verbatim
@@ -403,6 +405,33 @@ class Translator:
             if not cut:
                 raise TranslateError('%s: prefix: no top-level assignment to %s' % (qual, opts['prefix']['upto']))
             body = body[:cut[0] + 1] + ast.parse('return (%s)' % ', '.join(opts['prefix']['returns'])).body
+        # (C12, round 4) opts['segment'] = dict(after=<local>|None, upto=<local>, keep=[locals], returns=[locals], drop_params=bool):
+        # translate only the top-level statements AFTER the first assignment to `after` up to and including the first assignment to
+        # `upto`; earlier single-target assignments to a name in `keep` are retained in front (cheap derived locals); every other
+        # local the segment reads must be declared in opts['free'] (it becomes a leading parameter).  With drop_params the function's
+        # own parameters are not bound (the segment must not read them).  Theorems about a middle stage of a long straight-line routine.
+        if opts.get('segment'):
+            sg = opts['segment']
+
+            def first_assign(nm):
+                # plain / augmented assignment to the name, or a tuple-unpacking assignment containing it
+                for i, st in enumerate(body):
+                    tg = []
+                    if isinstance(st, ast.Assign):
+                        for t in st.targets:
+                            tg += [e.id for e in (t.elts if isinstance(t, ast.Tuple) else [t]) if isinstance(e, ast.Name)]
+                    elif isinstance(st, ast.AugAssign) and isinstance(st.target, ast.Name):
+                        tg = [st.target.id]
+                    if nm in tg:
+                        return i
+                raise TranslateError('%s: segment: no top-level assignment to %s' % (qual, nm))
+            lo = first_assign(sg['after']) + 1 if sg.get('after') else 0
+            hi = first_assign(sg['upto'])
+            if hi < lo:
+                raise TranslateError('%s: segment: %s is assigned before %s' % (qual, sg['upto'], sg.get('after')))
+            kept = [st for st in body[:lo] if isinstance(st, ast.Assign) and len(st.targets) == 1
+                    and isinstance(st.targets[0], ast.Name) and st.targets[0].id in sg.get('keep', [])]
+            body = kept + body[lo:hi + 1] + ast.parse('return (%s)' % ', '.join(sg['returns'])).body
         ret = self.block(body, lines, qual)
         if ret is None:
             raise TranslateError('%s: no return' % qual)
